@@ -31,7 +31,10 @@ def run(ctx):
         gl = [ctx.leaves(f.switch_discr_expr(b)) for b, fl, ps in g.switches]
         ctx.check(any(has_all(l, ["call:*ExtendedHeader::hash", "request.data"]) for l in gl), "C28.by-hash", f.path, "by-hash arm rejects a header with another hash", key="C28.by-hash")
         # the by-height comparison runs for every kept header
-        per_ok = per_iteration(ctx, f, ["request.data"], Cmp(["call:*ExtendedHeader::height"], ["request.data"], pass_op="Eq", name="header.height() == start + i"), "C28.by-height.each", "by-height arm: every kept header is compared with its expected height", must_dominate=False)
+        # the checking loop runs over the expected heights (zip with start..start+n) or over the kept headers
+        from engine.rules import loop_heads as _lh
+        it_pats = ["request.data"] if _lh(ctx, f, ["request.data"]) else ["call:*HeaderResponseExt*::to_validated_extented_header"]
+        per_ok = per_iteration(ctx, f, it_pats, Cmp(["call:*ExtendedHeader::height"], ["request.data"], pass_op="Eq", name="header.height() == start + i"), "C28.by-height.each", "by-height arm: every kept header is compared with its expected height", must_dominate=False)
     t = ctx.anchor("<celestia_proto::p2p::pb::HeaderResponse as lumina_node::p2p::header_ex::utils::HeaderResponseExt>::to_validated_extented_header", main=False)
     if t:
         require_guard(ctx, t, Has("call:*HeaderResponse::status_code", "a1", name="non-OK status rejected"), "C28.status")
